@@ -289,6 +289,33 @@ pub struct Execution {
     _output: Output, // holds the temporary output file(s) until execution is done
 }
 
+impl Execution {
+    /// Checks that the output of the program is where it was expected to be.
+    /// A program that removes the named pipe given as `$OUT`, or replaces it with another file,
+    /// has not delivered anything through it.
+    pub fn check_output(&self) -> io::Result<()> {
+        #[cfg(unix)]
+        if let Output::Named(output_pipe) = &self._output {
+            use std::os::unix::fs::FileTypeExt;
+            let is_pipe = match std::fs::symlink_metadata(output_pipe) {
+                Ok(metadata) => metadata.file_type().is_fifo(),
+                Err(e) if e.kind() == io::ErrorKind::NotFound => false,
+                Err(e) => return Err(e),
+            };
+            if !is_pipe {
+                return Err(io::Error::new(
+                    io::ErrorKind::Other,
+                    format!(
+                        "the program replaced the named pipe {} instead of writing to it",
+                        output_pipe.display()
+                    ),
+                ));
+            }
+        }
+        Ok(())
+    }
+}
+
 impl Drop for Execution {
     fn drop(&mut self) {
         let mut buf = [0; 4096];
@@ -362,6 +389,20 @@ fn create_named_pipe(_path: &PathBuf) -> io::Result<()> {
 /// Spawns the command process, and returns its output as a stream.
 /// The standard error is captured by a background thread and read to a string.
 fn execute(command: &mut Command, input: Input, output: Output) -> io::Result<Execution> {
+    // If the child is supposed to communicate its output through a named pipe, keep the pipe
+    // open for writing until the child exits. Then the reader at the other end is never blocked
+    // forever: not when the child doesn't open the pipe (e.g. wrong arguments given by the user),
+    // and not when it replaces the pipe with another file instead of writing to it.
+    // Opening a pipe for both reading and writing doesn't block.
+    let pipe_keeper = match output.pipe_path() {
+        Some(output_pipe) => Some(
+            OpenOptions::new()
+                .read(true)
+                .write(true)
+                .open(output_pipe)?,
+        ),
+        None => None,
+    };
     let child = Arc::new(Mutex::new(command.spawn()?));
 
     // We call 'take' to avoid borrowing `child` for longer than a single line.
@@ -371,7 +412,6 @@ fn execute(command: &mut Command, input: Input, output: Output) -> io::Result<Ex
     let child_out = child.lock().unwrap().stdout.take();
     let child_err = child.lock().unwrap().stderr.take();
 
-    let output_pipe = output.pipe_path();
     let child_ref = child.clone();
 
     // Capture the stderr in background in order to avoid a deadlock when the child process
@@ -383,17 +423,13 @@ fn execute(command: &mut Command, input: Input, output: Output) -> io::Result<Ex
         if let Some(mut stream) = child_err {
             let _ = stream.read_to_string(&mut str);
         }
-        // If the child is supposed to communicate its output through a named pipe,
-        // ensure the pipe gets closed and the reader at the other end receives an EOF.
-        // It is possible that due to a misconfiguration
-        // (e.g. wrong arguments given by the user) the child would never open the output file
-        // and the reader at the other end would block forever.
-        if let Some(output_pipe) = output_pipe {
-            // If those fail, we have no way to report the failure.
-            // However if waiting fails here, the child process likely doesn't run, so that's not
+        // Once the child has exited, close the pipe, so the reader at the other end
+        // receives an EOF after it has read everything the child has written.
+        if let Some(pipe_keeper) = pipe_keeper {
+            // If waiting fails here, the child process likely doesn't run, so that's not
             // a problem.
             let _ignore = child_ref.lock().unwrap().wait();
-            let _ignore = OpenOptions::new().write(true).open(output_pipe);
+            drop(pipe_keeper);
         }
         str
     });
